@@ -262,7 +262,7 @@ class Unit:
                 if p != '':
                     args.append('"%s"' % p)
                 if k < n:
-                    args.append('vdisp(&$a%d)' % k)
+                    args.append('&vdisp(&$a%d)' % k)
             if not args:
                 args = ['""']
             call = 'vcat%d(%s)' % (len(args), ', '.join(args))
@@ -270,7 +270,7 @@ class Unit:
             notes.append({'template': lit, 'expansion': call})
         if not arms:
             return '', notes
-        text = 'macro_rules! format {\n' + '\n'.join(arms) + '\n}'
+        text = 'macro_rules! format { ' + ' '.join(a.strip() for a in arms) + ' }'
         return text, notes
 
     def line_map(self, out_line):
